@@ -19,7 +19,7 @@ func init() {
 	register(&Check{
 		ID:    "C07",
 		Level: "model_checking",
-		Rule: "BFS (depth 6 quick / 10 thorough, sharded by first action) over {ok and failing send, send-with-caller failing before/after the reservation, deposit and deposit-with-caller incl. late failures after the burn, " +
+		Rule: "BFS (depth 6 quick / 12 thorough, sharded by first action) over {ok and failing send, send-with-caller failing before/after the reservation, deposit and deposit-with-caller incl. late failures after the burn, " +
 			"replace-message, replace-deposit, pause/unpause} from start counters {0,7,2^32-1,2^64-2}; the k-th success must carry start+k-1 in response and emitted message, the query start+#successes in every state; " +
 			"distinct_nontrivial counts distinct (start, #successes, transaction kind, outcome) tuples",
 		Assumptions: []string{"nonce arithmetic is modulo 2^64", "originals for replacement are the MessageSent bytes the chain emitted, attested by the harness keys (honest attester)"},
@@ -39,7 +39,7 @@ func c07Jobs(tier string) []Job {
 	starts := []uint64{0, 7, 1<<32 - 1, 1<<64 - 2}
 	depth := 6
 	if tier == "thorough" {
-		depth = 10
+		depth = 12
 	}
 	var jobs []Job
 	for _, st := range starts {
